@@ -41,6 +41,20 @@ def regen_extracted():
     return True, "", json.loads(out.strip().splitlines()[-1])
 
 
+def extracted_meta_summary():
+    """how the translator located its items (coq/gen/extracted_meta.json): counts per kind of pattern"""
+    p = os.path.join(COQ, "gen", "extracted_meta.json")
+    try:
+        loc = json.load(open(p)).get("located", {})
+    except (OSError, ValueError):
+        return {"file": "coq/gen/extracted_meta.json", "error": "missing"}
+    kinds = {}
+    for v in loc.values():
+        k = v.get("pattern", "?").split(":", 1)[0]
+        kinds[k] = kinds.get(k, 0) + 1
+    return {"file": "coq/gen/extracted_meta.json", "items": len(loc), "by_pattern_kind": kinds}
+
+
 # ------------------------------------------------------------------ Coq
 def coq_prepare():
     rc, out = sh([os.path.join(VERIF, "tools", "mkproject.sh")], timeout=120)
